@@ -746,6 +746,99 @@ func (s *Session) checkChanges(o *Obs) error {
 	return nil
 }
 
+// httpQueries: ask the "now" lookups and relationship queries through POST /query as well (go adapter sessions
+// of the replay worker; not in recovered-hub sessions, where the web service of the world is not rebuilt)
+func (s *Session) httpQueries() bool {
+	// every third behaviour (the handler adds encoding and paging around the same store calls)
+	return os.Getenv("VERIF_HTTP_QUERY") != "0" && s.Ad.Name() == "go" && !s.NoAt && s.Variant%3 == 0
+}
+
+func (s *Session) postQuery(body map[string]any) ([]json.RawMessage, error) {
+	h, err := s.W.Web()
+	if err != nil {
+		return nil, err
+	}
+	raw, _ := json.Marshal(body)
+	req := httptest.NewRequest(http.MethodPost, "/query", strings.NewReader(string(raw)))
+	req.Header.Set("Content-Type", "application/json")
+	rec := httptest.NewRecorder()
+	h.ServeHTTP(rec, req)
+	if rec.Code != 200 {
+		if strings.Contains(rec.Body.String(), "could not load predicate id") {
+			return nil, nil
+		}
+		return nil, fmt.Errorf("POST /query %s: %d %s", raw, rec.Code, rec.Body.String())
+	}
+	var elems []json.RawMessage
+	if err := json.Unmarshal(rec.Body.Bytes(), &elems); err != nil {
+		return nil, fmt.Errorf("POST /query: %w (%s)", err, rec.Body.String())
+	}
+	return elems, nil
+}
+
+func (s *Session) httpLookup(uri string, scope []string) (*server.Entity, error) {
+	body := map[string]any{"entityId": uri}
+	if len(scope) > 0 {
+		body["datasets"] = scope
+	}
+	elems, err := s.postQuery(body)
+	if err != nil || len(elems) < 2 {
+		return nil, err
+	}
+	e := &server.Entity{}
+	if err := json.Unmarshal(elems[1], e); err != nil {
+		return nil, err
+	}
+	if e.Properties == nil && e.References == nil {
+		return nil, nil // the handler's EmptyEntity
+	}
+	return e, nil
+}
+
+// httpRelated pages through POST /query with the handler's base64 continuations.
+func (s *Session) httpRelated(start, pred string, inv bool, scope []string, limit int) ([]RelOut, error) {
+	body := map[string]any{"startingEntities": []string{start}, "predicate": pred, "inverse": inv}
+	if len(scope) > 0 {
+		body["datasets"] = scope
+	}
+	if limit > 0 {
+		body["limit"] = limit
+	}
+	var out []RelOut
+	for page := 0; page < 200; page++ {
+		elems, err := s.postQuery(body)
+		if err != nil || len(elems) < 2 {
+			return out, err
+		}
+		var rows [][]json.RawMessage
+		if err := json.Unmarshal(elems[1], &rows); err != nil {
+			return nil, err
+		}
+		for _, row := range rows {
+			if len(row) != 3 {
+				return nil, fmt.Errorf("POST /query: row of %d elements", len(row))
+			}
+			var st, pr string
+			_ = json.Unmarshal(row[0], &st)
+			_ = json.Unmarshal(row[1], &pr)
+			e := &server.Entity{}
+			if err := json.Unmarshal(row[2], e); err != nil {
+				return nil, err
+			}
+			out = append(out, RelOut{Start: st, Pred: pr, Other: e})
+		}
+		var conts []string
+		if len(elems) > 2 {
+			_ = json.Unmarshal(elems[2], &conts)
+		}
+		if limit == 0 || len(conts) == 0 {
+			break
+		}
+		body = map[string]any{"continuations": conts, "limit": limit}
+	}
+	return out, nil
+}
+
 // httpChangesWalk reads a change feed through the HTTP handler page by page, following the continuation
 // tokens, until a page brings no entity (forward) or no token (reverse).
 func (s *Session) httpChangesWalk(real string, lim int, lo, reverse bool, maxPages int) ([]CEntity, error) {
@@ -872,6 +965,14 @@ func (s *Session) checkLookups(o *Obs) error {
 					}
 					got = append(got, ent)
 					how = append(how, "now")
+					if s.httpQueries() {
+						hent, herr := s.httpLookup(s.EntURI(e), s.scopeReal(sc))
+						if herr != nil {
+							return herr
+						}
+						got = append(got, hent)
+						how = append(how, "POST /query")
+					}
 				}
 				if id, ok := s.ids[e]; ok && s.Ad.CanAt() && !s.NoAt {
 					for _, at := range s.instants(t) {
@@ -988,8 +1089,23 @@ func (s *Session) checkRelated(o *Obs) error {
 								}
 							}
 						}
+						if t == o.Clock && s.httpQueries() {
+							runs = append(runs, run{"POST /query", 0, -1})
+							for _, l := range s.H.Limits {
+								if l > 0 {
+									runs = append(runs, run{fmt.Sprintf("POST /query,limit=%d", l), l, -1})
+								}
+							}
+						}
 						for _, r := range runs {
-							rels, err := s.Ad.Related(s, []string{s.EntURI(start)}, predArg, inv, s.scopeReal(sc), r.limit, r.at)
+							var rels []RelOut
+							var err error
+							if r.at == -1 {
+								rels, err = s.httpRelated(s.EntURI(start), predArg, inv, s.scopeReal(sc), r.limit)
+								r.at = 0
+							} else {
+								rels, err = s.Ad.Related(s, []string{s.EntURI(start)}, predArg, inv, s.scopeReal(sc), r.limit, r.at)
+							}
 							if err != nil {
 								return err
 							}
